@@ -24,7 +24,7 @@ func b2s(b bool) string {
 
 func TestC01(t *testing.T) {
 	p := &world.Profile{Name: "reaper", Linger: true, DupTaints: true, MinGroups: 1, MaxGroups: 2, Fleet: 0, Auto: 1, Default: 1, MaxInit: 8, SmallGraces: true, Steps: 30, Stale: true,
-		Weights: with(baseWeights(), "advance", 9, "taintExt", 5, "clearNode", 3, "fault", 1, "annotate", 1, "gcNodes", 1, "forceBusy", 3, "schedule", 3, "launch", 3, "lateBind", 3, "staleWindow", 2, "gracefulDelete", 4, "raceOnWrite", 3)}
+		Weights: with(baseWeights(), "advance", 9, "taintExt", 5, "clearNode", 3, "fault", 1, "annotate", 1, "gcNodes", 1, "forceBusy", 3, "schedule", 3, "launch", 3, "lateBind", 3, "staleWindow", 2, "gracefulDelete", 4, "raceOnWrite", 3, "oddTaintAtFloor", 1)}
 	col := newCollector(t, "C01", "history of environment actions and scans over the real RunOnce; non-trivial = a scan that removed >=1 node while leaving >=1 tainted node in place, or that saw a tainted node within 1s of a grace boundary; distinct by (age class, empty, removed, restarted, taint value class)")
 	historyCheck(t, &historyOpts{prop: "C01", profile: p, col: col, classify: func(w *world.World, rec *world.ScanRecord) []string {
 		var keys []string
@@ -127,7 +127,7 @@ func TestC02(t *testing.T) {
 
 func TestC03(t *testing.T) {
 	p := &world.Profile{Name: "mintaint", MinGroups: 1, MaxGroups: 2, Auto: 2, MaxInit: 10, SmallGraces: true, Steps: 30, Stale: true,
-		Weights: with(baseWeights(), "asgEdit", 2, "cordon", 3, "taintExt", 3, "targetUtil", 10, "pinAsg", 3, "refreshFails", 2, "belowMinWithCordoned", 3)}
+		Weights: with(baseWeights(), "asgEdit", 2, "cordon", 3, "taintExt", 3, "targetUtil", 10, "pinAsg", 3, "refreshFails", 2, "belowMinWithCordoned", 3, "oddTaintAtFloor", 3)}
 	col := newCollector(t, "C03", "history check; non-trivial = a scan in which the clamp binds (rate > untainted - min), or untainted < min (recovery), or min_nodes is auto-discovered; distinct by (clamp, recovery, auto, tainted-present, cordoned-present, k)")
 	historyCheck(t, &historyOpts{prop: "C03", profile: p, col: col, classify: func(w *world.World, rec *world.ScanRecord) []string {
 		var keys []string
@@ -194,8 +194,8 @@ func TestC04(t *testing.T) {
 // ---------------------------------------------------------------- C05 (end-to-end half)
 
 func TestC05History(t *testing.T) {
-	p := &world.Profile{Name: "scaleup", MinGroups: 1, MaxGroups: 1, Fleet: 1, Auto: 1, MaxInit: 10, SmallGraces: true, Steps: 20,
-		Weights: with(baseWeights(), "targetUtil", 14, "taintExt", 5, "cordon", 1, "restart", 2, "fleetPlan", 1, "drainAndForce", 1, "killNode", 2, "storm", 2, "asgEdit", 2, "zeroOut", 2, "sizeSeenOutOfBounds", 2, "gracefulDelete", 3, "refreshFails", 3, "replacePod", 3, "replaceBetweenScans", 3)}
+	p := &world.Profile{Name: "scaleup", FaultFocus: "node-writes", MinGroups: 1, MaxGroups: 1, Fleet: 1, Auto: 1, MaxInit: 10, SmallGraces: true, Steps: 20,
+		Weights: with(baseWeights(), "targetUtil", 14, "taintExt", 5, "cordon", 1, "restart", 2, "fleetPlan", 1, "drainAndForce", 1, "killNode", 2, "storm", 2, "asgEdit", 2, "zeroOut", 2, "sizeSeenOutOfBounds", 2, "gracefulDelete", 3, "refreshFails", 3, "replacePod", 3, "replaceBetweenScans", 3, "sizeChangesThenZero", 3, "fault", 3, "raceOnWrite", 2)}
 	col := newCollector(t, "C05", "end-to-end: scans in the scale-up band with equal-size nodes; nodes brought into service = untaints + (requested target - real desired); non-trivial = strict scale-up band with need >= 1; distinct by (need, reused, requested, clamped, bound resource)")
 	historyCheck(t, &historyOpts{prop: "C05", profile: p, col: col, classify: func(w *world.World, rec *world.ScanRecord) []string {
 		var keys []string
@@ -215,7 +215,7 @@ func TestC05History(t *testing.T) {
 func TestC06(t *testing.T) {
 	p := &world.Profile{Name: "bands", MinGroups: 1, MaxGroups: 2, Fleet: 1, Auto: 1, Default: 1, Starve: 1, MaxAge: 1, MaxInit: 10, SmallGraces: true, Steps: 25,
 		FaultFocus: "cloud",
-		Weights:    with(baseWeights(), "targetUtil", 16, "scan", 12, "taintExt", 2, "cordon", 1, "restart", 1, "schedule", 3, "asgEdit", 2, "fault", 2, "fleetPlan", 1, "resizeNode", 2, "launch", 3, "starveAfterScaleUp", 2, "latency", 2, "gracefulDelete", 2)}
+		Weights:    with(baseWeights(), "targetUtil", 16, "scan", 12, "taintExt", 2, "cordon", 1, "restart", 1, "schedule", 3, "asgEdit", 2, "fault", 2, "fleetPlan", 1, "resizeNode", 2, "launch", 3, "starveAfterScaleUp", 2, "latency", 2, "gracefulDelete", 2, "unevenStarve", 4)}
 	col := newCollector(t, "C06", "history check; every unlocked, in-bounds, fault-free scan is judged against the exact-rational band; non-trivial = band with a non-empty expected action or an edge class; distinct by (band set, edge, clamp binds, tainted present, trigger)")
 	historyCheck(t, &historyOpts{prop: "C06", profile: p, col: col, classify: func(w *world.World, rec *world.ScanRecord) []string {
 		var keys []string
@@ -601,7 +601,7 @@ func TestC20(t *testing.T) {
 	p := &world.Profile{Name: "chaos", Linger: true, OddConfig: true, DupTaints: true, MinGroups: 1, MaxGroups: 3, Dry: 1, Fleet: 1, Auto: 1, Default: 1, Starve: 1, MaxAge: 1, MaxInit: 10, SmallGraces: true, Steps: 30, Stale: true,
 		Weights: with(baseWeights(), "oddNode", 5, "oddPod", 5, "fault", 8, "taintExt", 6, "killNode", 2, "detach", 1, "asgEdit", 1, "fleetPlan", 2, "advance", 8, "gcNodes", 1, "staleWindow", 2, "zeroOut", 1, "tinyThenZero", 2, "dupNode", 2, "terminating", 2, "latency", 1, "leftoverNode", 2, "massDeleteFails", 2, "fleetFailsEverywhere", 1, "refreshFails", 1, "clonePod", 1, "replaceAndReap", 3)}
 	col := newCollector(t, "C20", "chaos histories: malformed nodes/pods, absurd taint values, API and cloud failures at drawn call indices; non-trivial = a scan in which an injected failure was hit, or an odd object was part of a processed in-bounds group; distinct by (fault kinds hit, odd kinds present, outcome)")
-	historyCheck(t, &historyOpts{prop: "C20", profile: p, col: col, classify: func(w *world.World, rec *world.ScanRecord) []string {
+	historyCheck(t, &historyOpts{prop: "C20", profile: p, col: col, extra: nextScanNormal, classify: func(w *world.World, rec *world.ScanRecord) []string {
 		var keys []string
 		if rec.FaultHits > 0 {
 			kinds := map[string]bool{}
@@ -740,3 +740,30 @@ func TestC08Big(t *testing.T)        { TestC08(t) }
 func TestC09Big(t *testing.T)        { TestC09(t) }
 func TestC10Big(t *testing.T)        { TestC10(t) }
 func TestC19HistoryBig(t *testing.T) { TestC19History(t) }
+
+// nextScanNormal: "after a transient failure the next scan proceeds normally". A scan in which no
+// failure is injected must follow the band rule in every group whose objects are inside the input
+// domain (groups holding malformed objects are judged for crash-freedom only, see world.Expectation).
+func nextScanNormal(w *world.World, rec *world.ScanRecord) []world.Violation {
+	var out []world.Violation
+	if rec.FaultHits > 0 || len(rec.FaultsArmed) > 0 || rec.Restarted {
+		return nil
+	}
+	for _, n := range rec.View.Nodes { // the escalator key twice on one node: which one counts is not defined
+		k := 0
+		for _, t := range n.Spec.Taints {
+			if t.Key == ref.TaintKey {
+				k++
+			}
+		}
+		if k > 1 {
+			return nil
+		}
+	}
+	for _, v := range w.M06(rec) {
+		if v.Prop == "C06" {
+			out = append(out, world.Violation{Prop: "C20", Sig: "C20:next-scan-abnormal:" + v.Sig, Msg: "a scan without any failure does not behave normally: " + v.Msg})
+		}
+	}
+	return out
+}
